@@ -124,7 +124,7 @@ def tol_for(values):
     return 1e-5 * (1.0 + sum(abs(v) for v in values.values()))
 
 
-def check_real(pr, method, rep=None, want=None):
+def check_real(pr, method, rep=None, want=None, resolve=False):
     fails = Fails(want)
     try:
         P, b, built = PR.build_problem(pr)
@@ -152,6 +152,23 @@ def check_real(pr, method, rep=None, want=None):
     if worst > tol_for(sol.values):
         fails.add("optimal-but-infeasible", method=method, violation=worst, where=where, values=sol.values,
                   message=sol.message[:100])
+    if resolve and not fails:
+        # the model is extracted / compiled AGAIN (caches dropped by re-installing the same objective): the first
+        # solve must not have modified the model it read
+        try:
+            (P.minimize if pr[1] == "min" else P.maximize)(P.objective)
+            sol2 = P.solve(**kw)
+            if rep:
+                rep.transitions += 2
+            if sol2.status.value == "optimal":
+                worst2, where2 = feasibility(pr, sol2.values)
+                if rep:
+                    rep.evaluations += 1
+                if worst2 > tol_for(sol2.values):
+                    fails.add("optimal-but-infeasible:second-solve-after-cache-drop", method=method, violation=worst2,
+                              where=where2, values=sol2.values)
+        except Exception:
+            pass
     return fails
 
 
@@ -343,7 +360,7 @@ def explore(item, tier, seed):
 
         for idx, lab, pr, m in _it.chain(F.family("quick"), F.view_family()):
             if idx % (n * (1 if tier == "thorough" else 4)) == i:
-                record(check_real(pr, m, rep), {"mode": "real", "label": lab, "problem": pr, "method": m})
+                record(check_real(pr, m, rep, resolve=True), {"mode": "real", "label": lab, "problem": pr, "method": m, "resolve": True})
     elif kind == "E3":
         for k, (lab, pr1, pr2, m) in enumerate(e3_cases()):
             if k % n == i:
@@ -382,7 +399,7 @@ def replay(art):
     if case["mode"] == "history":
         fs = check_history(detuple(case["first"]), pr, case["method"], None, want=art["culprit"]["kind"])
     elif case["mode"] == "real":
-        fs = check_real(pr, case["method"], None, want=art["culprit"]["kind"])
+        fs = check_real(pr, case["method"], None, want=art["culprit"]["kind"], resolve=bool(case.get("resolve")))
     elif case["mode"] == "env":
         fs = check_env(detuple(case["label"]), pr, case["method"], detuple(case["script"]), None, want=art["culprit"]["kind"])
     else:
